@@ -215,6 +215,10 @@ def r22(ctx, rep, ti):
                 if hit:
                     bad = ('truth test of the table %s: a petl table has no __bool__, so this calls '
                            'IterContainer.__len__, a full scan' % sorted(hit))
+            elif ev.kind == 'for' and ev.info['has_yield'] and _materialised(ev.info['iter']):
+                ms = _materialised(ev.info['iter'])
+                bad = ('the yielding loop runs over a materialised copy of the source %s: every row is read before the '
+                       'first one is delivered' % sorted(ms))
             elif ev.kind == 'for':
                 v = ev.info['iter']
                 hit = _stream_hits(v, S, containers)
@@ -253,6 +257,35 @@ def r22(ctx, rep, ti):
         if not bad:
             rep.held('R2.2', fn, 'def ' + fn.name, 'reads the file record by record', fn.node)
     ctx.floor('streaming_functions', n, 55)
+
+
+def _materialised(v, depth=0):
+    """Sources whose rows sit in a container built by this function (list(it),
+    sorted(table), enumerate(list(x)) ...): names of ROW/HDR atoms found inside
+    FRESH / wrapper element sets.  Bounded samples (islice with a stop) and rows
+    of groups are not sources."""
+    out = set()
+    if depth > 3:
+        return out
+    for a in v:
+        if a[0] == 'FRESH' and a[1] in ('list', 'tuple', 'set', 'deque', 'dict'):
+            for b in a[3]:
+                if b[0] in ('ROW', 'HDR') and not b[1].startswith(('bounded:', 'row:', 'gen:', 'local', '?')):
+                    out.add(b[1])
+                elif b[0] == 'TUPLE':
+                    for x in b[1]:
+                        out |= _materialised(frozenset(y for y in x if y[0] in ('ROW', 'HDR')) and
+                                             frozenset([('FRESH', 'list', '', x)]), depth + 1)
+        elif a[0] == 'ITER' and a[1].startswith('mat:') and not a[1].startswith('mat:bounded:'):
+            out.add(a[1][4:])
+        elif a[0] == 'ITER' and a[3]:
+            for b in a[3]:
+                if b[0] == 'TUPLE':
+                    for x in b[1]:
+                        out |= _materialised(x, depth + 1)
+                elif b[0] == 'FRESH':
+                    out |= _materialised(frozenset([b]), depth + 1)
+    return out
 
 
 def _stream_hits(v, S, containers):
